@@ -175,6 +175,12 @@ def owner (ring : List Entry) (t : Int) : List Host :=
   | some e => [e.2]
   | none => []
 
+/-- `r`, or the primary owner `o` when there are no replicas -/
+def orOwner (r o : List Host) : List Host :=
+  match r with
+  | [] => o
+  | _ => r
+
 /-- the replicas to start from for a token of keyspace `ks`: Cassandra's placement for the strategy of the schema
 readable NOW on the CURRENT ring; the primary owner when the schema is unreadable / has no usable strategy /
 Cassandra places the token on no node. -/
@@ -185,9 +191,7 @@ def lookup (s : PolState) (ks : Nat) (t : Int) : Lookup :=
     .hosts (match s.schema ks with
       | some (.simple rf) => Placement.Spec.simple ring rf t
       | some (.nts rfs) =>
-        (match Placement.Spec.nts ring rfs t with
-         | [] => owner ring t
-         | r => r)
+        orOwner (Placement.Spec.nts ring rfs t) (owner ring t)
       | _ => owner ring t)
 
 end Spec
